@@ -79,6 +79,29 @@ def _factory_inner(fdef):
     return None
 
 
+def _registrar_parts(fdef):
+    """({inner name: FunctionDef}, [(register(...) call, inner name)]) for a procedure of the shape
+    `def reg(a, b): def f(..): ...; def g(..): ...; register(T1, k1)(f); register(T2, k2)(g)`, else None"""
+    body = [st for st in fdef.body if not (isinstance(st, ast.Expr) and isinstance(st.value, ast.Constant))]
+    a = fdef.args
+    if a.vararg or a.kwarg or a.kwonlyargs or a.defaults or fdef.decorator_list:
+        return None
+    inners, regs = {}, []
+    for st in body:
+        if isinstance(st, ast.FunctionDef) and not st.decorator_list:
+            assigned = {x.id for x in ast.walk(st) if isinstance(x, ast.Name) and isinstance(x.ctx, (ast.Store, ast.Del))}
+            if assigned & {p.arg for p in a.args}:
+                return None
+            inners[st.name] = st
+        elif isinstance(st, ast.Expr) and isinstance(st.value, ast.Call) and isinstance(st.value.func, ast.Call) and \
+                isinstance(st.value.func.func, ast.Name) and st.value.func.func.id == "register" and len(st.value.args) == 1 and \
+                isinstance(st.value.args[0], ast.Name) and st.value.args[0].id in inners and not st.value.keywords:
+            regs.append((st.value.func, st.value.args[0].id))
+        else:
+            return None
+    return (inners, regs) if regs else None
+
+
 def _class_members(tree, funcs):
     """`name = factory(const...)` in a class body, factory a module-level closure factory: the method it stands for"""
     done = 0
@@ -155,6 +178,22 @@ def normalise(tree):
                 ok = False
                 break
             for b in st.body:
+                # REGISTRAR(args...): a module-level procedure whose body only defines closures and registers them
+                if isinstance(b, ast.Expr) and isinstance(b.value, ast.Call) and isinstance(b.value.func, ast.Name) and \
+                        b.value.func.id in funcs and not b.value.keywords and _registrar_parts(funcs[b.value.func.id]) is not None and \
+                        len(b.value.args) == len(funcs[b.value.func.id].args.args):
+                    fdef = funcs[b.value.func.id]
+                    inners, regs = _registrar_parts(fdef)
+                    sub = _Subst(env)
+                    penv = {p.arg: sub.visit(copy.deepcopy(a)) for p, a in zip(fdef.args.args, b.value.args)}
+                    for (reg_call, inner_name) in regs:
+                        inner = inners[inner_name]
+                        clone = _Subst(penv).visit(copy.deepcopy(inner))
+                        clone.name = "%s__%d" % (inner.name, k)
+                        clone.decorator_list = [_Subst(penv).visit(copy.deepcopy(reg_call))]
+                        ast.copy_location(clone, st)
+                        gen.append(clone)
+                    continue
                 # register(REG, KEY)(FACTORY(args...))
                 if not (isinstance(b, ast.Expr) and isinstance(b.value, ast.Call) and isinstance(b.value.func, ast.Call) and
                         len(b.value.args) == 1 and not b.value.keywords and isinstance(b.value.args[0], ast.Call) and
